@@ -8,6 +8,8 @@ from .. import paths, waiters
 from ..core import FUNC, call_attr, calls_in, const, dotted, kwarg, is_const, norm, text, walk_local
 
 EXPLANATION = [
+    'C09.mismatch-closes-both: the mode-mismatch branch of ClassicChannel.on_configure_request both fails a pending connect() and sends the Disconnection Request on every path.',
+    "C09.response-closes: in both channel classes on_disconnection_response returns early only on the state test and the CID tests: no other condition (such as the manager's link-wide identifier counter) can make a matching response leave the channel DISCONNECTING.",
     'C09.settle-guard: every set_result / set_exception on a future kept in a channel attribute is under `not <future>.done()`, unless every coroutine waiting on that attribute clears it in a finally (a waiter that timed out leaves a cancelled future behind; settling it raises InvalidStateError in the middle of the link teardown).',
     "C09.waiter-scope: every cancel-on-disconnection wrapper in bumble.l2cap is tied to the operation's own connection (connection.cancel_on_disconnection, or cancel_on_event on the connection / channel), never to the host-wide disconnection event.",
     'C09.unordered-pairing: no zip() / enumerate() pairs positions with a set (literal, comprehension, set() call or a name bound only to such): the order of a set is arbitrary.',
@@ -1016,7 +1018,69 @@ def settle_guard_rule(ctx):
     settle_guard(ctx, 'C09.settle-guard', ['bumble.l2cap.ClassicChannel', 'bumble.l2cap.LeCreditBasedChannel'])
 
 
+def response_closes(ctx):
+    """A Disconnection Response that names this channel (CIDs match) while it is DISCONNECTING closes it: after those two
+    tests nothing else may return early -- in particular not a comparison with the manager's link-wide identifier counter,
+    which any other signalling frame has moved on in the meantime."""
+    R, p = ctx.r, ctx.p
+    rule = 'C09.response-closes'
+    for cq, closed_call in ((LE, 'self.manager.on_channel_closed'), (CL, 'self.manager.on_channel_closed')):
+        fn = p.find(f'{cq}.on_disconnection_response')
+        if fn is None:
+            R.bad(rule, f'{cq}.on_disconnection_response', 'anchor missing')
+            continue
+        allowed = ('self.state', 'destination_cid', 'source_cid', 'self.disconnection_result')
+
+        class D(paths.Domain):
+            # (foreign test seen on the way, closed)
+            def assume(self, atom, truth, v):
+                t = norm(atom)
+                if not any(a in t for a in allowed):
+                    return ((t, v[1]),)
+                return (v,)
+
+            def event(self, node, v):
+                if isinstance(node, ast.Call) and dotted(node.func) == closed_call:
+                    return ((v[0], True),)
+                return (v,)
+        res = paths.run(fn, D(), (None, False))
+        ex = paths.normal_exits(res)
+        bad = sorted({v[0] for v in ex if v[0] is not None and not v[1]})
+        R.check(any(v[1] for v in ex) and not bad, rule, f'{cq}.on_disconnection_response', 'only the state and the CIDs decide whether the response closes the channel',
+                f'the response is also ignored when `{bad[0] if bad else ""}` holds: a response that does name this channel leaves it DISCONNECTING, its disconnect() waiting and its CID taken', p.loc(fn))
+
+
+def mismatch_closes_both(ctx):
+    """A transmission-mode mismatch found while configuring ends the channel on both ends: the branch fails a pending
+    connect() AND sends the Disconnection Request, on every path (an initiator that only fails locally leaves the responder's
+    channel half configured and its CID taken)."""
+    R, p = ctx.r, ctx.p
+    rule = 'C09.mismatch-closes-both'
+    fn = p.find(f'{CL}.on_configure_request')
+    if fn is None:
+        R.bad(rule, f'{CL}.on_configure_request', 'anchor missing')
+        return
+    brs = [n for n in ast.walk(fn) if isinstance(n, ast.If) and norm(n.test) in ('new_mode != self.mode', 'self.mode != new_mode')]
+    R.check(len(brs) == 1, rule, f'{CL}.on_configure_request | mode mismatch branch', 'one branch', f'{len(brs)} branches', p.loc(fn))
+    for br in brs:
+        class D(paths.Domain):
+            def event(self, node, v):
+                if isinstance(node, ast.Call):
+                    d = dotted(node.func)
+                    if d == 'self._abort_connection_result':
+                        return ((True, v[1]),)
+                    if d in ('self._disconnect_sync', 'self.disconnect'):
+                        return ((v[0], True),)
+                return (v,)
+        res = paths.run_block(br.body, D(), (False, False))
+        ends = [(v, w) for k, st in res.items() if not k.startswith('raise') for v, w in st.items()]
+        bad = [' '.join(w) for v, w in ends if v != (True, True)]
+        R.check(bool(ends) and not bad, rule, f'{CL}.on_configure_request | mismatch', 'every path fails the pending connect and sends the Disconnection Request', 'a path through the mode-mismatch branch does only one of "fail the local connect()" and "disconnect the channel": the peer\'s channel stays in WAIT_CONFIG_* with its CID taken (or the local caller is never told)', p.loc(br), bad[:2])
+
+
 RULES = [
+    ('C09.mismatch-closes-both', mismatch_closes_both),
+    ('C09.response-closes', response_closes),
     ('C09.settle-guard', settle_guard_rule),
     ('C09.waiter-scope', waiter_scope),
     ('C09.unordered-pairing', unordered_pairing_rule),
